@@ -343,9 +343,12 @@ pub fn nak_packet(seq: u32) -> Vec<u8> {
     nak
 }
 
-/// The 44-byte SRT ACK the receiver sends back with marker `m` (cumulative number `ack` at bytes 16..20).
+/// The SRT ACK the receiver sends back with marker `m` (cumulative number `ack` at bytes 16..20). Its length
+/// cycles through 44 / 200 / 1316 / 1499 / 1500 (= MTU) bytes with the marker: return traffic of every size up to
+/// the MTU must be relayed.
 pub fn srt_ack_packet(m: u32, ack: u32) -> Vec<u8> {
-    let mut p = vec![0u8; 44];
+    let len = [44usize, 200, 1316, 1499, 1500][(m % 5) as usize];
+    let mut p = vec![0u8; len];
     p[0] = 0x80;
     p[1] = 0x02;
     p[4..8].copy_from_slice(&m.to_be_bytes());
@@ -1049,10 +1052,10 @@ pub fn monitors_e2e(trace: &Trace, sc: &Scenario, mon: &mut crate::Mon) {
     let mut got: BTreeMap<u32, usize> = BTreeMap::new();
     let mut got_nak: BTreeSet<u32> = BTreeSet::new();
     for (at, d) in &trace.client {
-        let m = if d.len() == 44 { u32::from_be_bytes([d[4], d[5], d[6], d[7]]) } else { 0 };
-        let ack = if d.len() == 44 { u32::from_be_bytes([d[16], d[17], d[18], d[19]]) } else { 0 };
+        let m = if d.len() >= 44 { u32::from_be_bytes([d[4], d[5], d[6], d[7]]) } else { 0 };
+        let ack = if d.len() >= 44 { u32::from_be_bytes([d[16], d[17], d[18], d[19]]) } else { 0 };
         let nk = if d.len() == 20 { u32::from_be_bytes([d[16], d[17], d[18], d[19]]) } else { 0 };
-        if d.len() == 44 && acks.contains_key(&m) && *d == srt_ack_packet(m, ack) {
+        if d.len() >= 44 && acks.contains_key(&m) && *d == srt_ack_packet(m, ack) {
             *got.entry(m).or_default() += 1;
             mon.count("e2e-return-delivered");
         } else if d.len() == 20 && naks.contains(&nk) && *d == nak_packet(nk) {
@@ -1082,7 +1085,7 @@ pub fn monitors_e2e(trace: &Trace, sc: &Scenario, mon: &mut crate::Mon) {
         if live_at(trace, b, t.link) && live_at(trace, a, t.link) && t.at + 1500 < last_tick_at {
             mon.count("e2e-return-judged");
             if !got.contains_key(m) {
-                mon.fail("C09", "e2e-return-not-relayed", format!("real event loop [{what}]: the receiver's SRT ACK #{m}, sent at {} on uplink 127.0.0.{} (connected and live in the snapshots before and after), never reached the SRT client", t.at, t.link));
+                mon.fail("C09", "e2e-return-not-relayed", format!("real event loop [{what}]: the receiver's SRT ACK #{m} ({} bytes), sent at {} on uplink 127.0.0.{} (connected and live in the snapshots before and after), never reached the SRT client", srt_ack_packet(*m, 0).len(), t.at, t.link));
             }
         }
     }
@@ -1266,6 +1269,48 @@ pub fn monitors_cfg(trace: &Trace, sc: &Scenario, mon: &mut crate::Mon) {
             mon.count("e2e-tick-with-latched-uplink");
         }
     }
+    // C12: with the guard off there are no duplicate probes - a setting takes effect on the next routing decision,
+    // so a datagram the source sent more than 50 ms after the guard was switched off goes on one uplink only
+    {
+        let mut off_since: Option<u64> = None; // virtual time from which the guard is off (None = on)
+        let mut windows: Vec<(u64, u64)> = Vec::new();
+        for (ct, k, v) in &sc.cfg {
+            if *k != 2 {
+                continue;
+            }
+            let Some(at) = trace.ticks.get(ct.saturating_sub(1)).map(|t| t.at) else { continue };
+            match (*v, off_since) {
+                (0, None) => off_since = Some(at),
+                (1, Some(from)) => {
+                    windows.push((from, at));
+                    off_since = None;
+                }
+                _ => {}
+            }
+        }
+        if let Some(from) = off_since {
+            windows.push((from, u64::MAX));
+        }
+        if !windows.is_empty() {
+            let sent_at: std::collections::BTreeMap<u32, u64> = trace.src.iter().map(|(at, s)| (*s, *at)).collect();
+            let mut copies: std::collections::BTreeMap<u32, Vec<u8>> = Default::default();
+            for e in &trace.rx {
+                if let RxKind::Data { seq, .. } = &e.kind {
+                    copies.entry(*seq).or_default().push(e.link);
+                }
+            }
+            for (seq, links) in &copies {
+                let Some(at) = sent_at.get(seq) else { continue };
+                if windows.iter().any(|(from, to)| *at > from + 50 && *at < *to) {
+                    mon.count("e2e-datagram-with-guard-off");
+                    if links.len() > 1 {
+                        mon.fail("C12", "e2e-probe-with-guard-off", format!("real event loop [{what}]: datagram {seq}, sent by the source at {at} - more than 50 ms after the guard was switched off - went on the wire of uplinks {links:?}: duplicate probes belong to the guard, and a setting takes effect on the next routing decision"));
+                        break;
+                    }
+                }
+            }
+        }
+    }
     // C10 / C06: classic mode applies no time-based recovery - between two snapshots that both report classic mode
     // (set before the earlier one), a connected uplink's window does not rise unless the receiver sent an SRTLA ACK
     // to some uplink in between (the only thing that raises a classic window)
@@ -1349,7 +1394,9 @@ pub fn monitors_cfg(trace: &Trace, sc: &Scenario, mon: &mut crate::Mon) {
 }
 
 /// Random scenario for the `e2e` component.
-pub fn generate_e2e(rng: &mut crate::Rng) -> Scenario {
+pub fn generate_e2e(rng: &mut crate::Rng, idx: usize) -> Scenario {
+    // the directed scenario kinds are stratified over the case index, so that even a run of 16 cases has each twice
+    let kind = idx % 8;
     let n = rng.range(2, 3) as u8;
     let ips: Vec<u8> = (1..=n).collect();
     let ticks = rng.range(45, 80) as usize;
@@ -1362,7 +1409,7 @@ pub fn generate_e2e(rng: &mut crate::Rng) -> Scenario {
             bh.push((rng.range(1, n as u64) as u8, from2, from2 + rng.range(2, 10) as usize));
         }
     }
-    if rng.chance(1, 8) {
+    if kind == 3 {
         // one long outage: many paced retries
         bh.clear();
         bh.push((rng.range(1, n as u64) as u8, rng.range(6, 12) as usize, ticks));
@@ -1428,7 +1475,10 @@ pub fn generate_e2e(rng: &mut crate::Rng) -> Scenario {
     // one scenario in eight: an uplink is removed by a reload and the source falls silent in the very tick that
     // applies it (what is queued on the survivors at that moment must still be flushed within a tick)
     let mut sc = sc;
-    if rng.chance(1, 8) && sc.ips.len() >= 3 {
+    if kind == 1 {
+        if sc.ips.len() < 3 {
+            sc.ips = vec![1, 2, 3];
+        }
         let at = rng.range(8, 25) as usize;
         let mut fewer = sc.ips.clone();
         fewer.pop();
@@ -1438,8 +1488,29 @@ pub fn generate_e2e(rng: &mut crate::Rng) -> Scenario {
         sc.bh.retain(|(_, from, to)| *to < at || *from > at + 8);
         sc.forget = 0;
     }
+    // one scenario in eight: the guard is switched off while an uplink under load is black-holed (latched, probed)
+    if kind == 0 {
+        let from = rng.range(8, 14) as usize;
+        sc.bh = vec![(rng.range(1, sc.ips.len() as u64) as u8, from, from + rng.range(12, 24) as usize)];
+        sc.forget = 0;
+        sc.pps = *rng.pick(&[200u32, 400]);
+        sc.reloads.clear();
+        sc.quiet = (0, 0);
+        // no cumulative SRT ACKs (they would drain the black-holed link's backlog through the healthy links) and a
+        // long timeout, so that the silent uplink stays connected, backlogged and latched for a while
+        sc.sack = 0;
+        // no RTT samples: the CC stays in bootstrap and publishes no in-flight cap (the cap would keep the silent
+        // uplink's backlog under the 32 packets the latch needs)
+        sc.rtt_ms = 0;
+        sc.nak_every = 0;
+        sc.admit2 = 0;
+        sc.cfg.retain(|(_, k, _)| *k != 2 && *k != 3 && *k != 0);
+        sc.cfg.push((3, 3, 20000));
+        sc.cfg.push((from + rng.range(5, 10) as usize, 2, 0));
+        sc.cfg.sort();
+    }
     // one scenario in six: switch to classic mode at run time, then the source pauses for a while
-    if rng.chance(1, 6) {
+    if kind == 2 {
         let at = rng.range(8, 20) as usize;
         sc.cfg.retain(|(_, k, _)| *k != 0);
         sc.cfg.push((at, 0, 1));
